@@ -674,6 +674,20 @@ def r4e_local_memo_keys(ctx):
                     for nm in _named_roots(f, a, stop_at_named=True):
                         if nm not in keynames and nm != "self":
                             missing.add(nm)
+            if missing:
+                # a memo that is created afresh inside a loop lives for one iteration: what is bound once per iteration before
+                # the memo is created (the file of a per-file pass) is the same for every entry of that memo
+                from .r1e import natural_loops
+                made = [d[1] for d in f.whole_defs(m) if d[0] == "call" and re.search(r"::(new|default|with_capacity)$|with_capacity_and_hasher$", d[2].get("res") or d[2].get("fn") or "")]
+                if len(made) == 1:
+                    inner = [set(body) for _h, _l, body in natural_loops(f) if made[0] in body]
+                    if inner:
+                        body = min(inner, key=len)
+                        dom = f.dominators().get(made[0], set())
+                        for nm in list(missing):
+                            defs = [d[1] for l in range(1, len(f.locals)) if f.local_name(l) == nm for d in f.whole_defs(l) if d[0] in ("assign", "call")]
+                            if defs and all(b in body and b in dom for b in defs):
+                                missing.discard(nm)
             key = "R4e|%s|%s" % (f.id, f.local_name(m))
             if missing:
                 r.violate(key, "memo `%s` in %s is filled from %s but its key (%s) does not cover %s" % (
